@@ -25,7 +25,7 @@ CONSTANTS Fault,      \* "none" or the name of a faulty implementation
 Faults == {"params_equal_ignores_hash", "key_equal_ignores_variant", "key_equal_ignores_id", "key_equal_ignores_material",
            "crunchy_prefix_01", "legacy_prefix_01", "prefix_little_endian", "pubkey_other_encoding", "pubkey_drops_id",
            "id_zero_wildcard", "idreq_always_required", "hasidreq_ignores_prehash_variant", "equal_across_types",
-           "equal_one_directional", "unstable_accessor", "accepts_nonzero_id", "parameters_not_kept", "kid_not_base64_of_id",
+           "equal_one_directional", "unstable_accessor", "accessor_returns_internal_slice", "accepts_nonzero_id", "parameters_not_kept", "kid_not_base64_of_id",
            "private_equal_public_only"}
 ASSUME Fault \in Faults \cup {"none"}
 
@@ -123,6 +123,7 @@ ImplObs(a) ==
    hasprefix |-> a.kt \in PrefixTypes, prefix |-> ImplPrefix(a),
    haskid |-> HasKidAccessor(a), kid |-> ImplKid(a)[1], kidset |-> ImplKid(a)[2], ckid |-> CustomKid(a),
    unstable |-> IF F("unstable_accessor") /\ a.kt = "AesGcm" THEN <<"OutputPrefix">> ELSE <<>>,
+   aliased |-> IF F("accessor_returns_internal_slice") /\ a.kt = "Ecdsa" /\ a.kind = "public" THEN <<"PublicPoint">> ELSE <<>>,
    pbuilt |-> ~(F("parameters_not_kept") /\ a.kt = "HmacPrf"), pbuiltR |-> ~(F("parameters_not_kept") /\ a.kt = "HmacPrf"),
    pfresh |-> TRUE, pfreshR |-> TRUE, pself |-> ImplPEq(a, a), self |-> ImplEq(a, a),
    value |-> <<a.kt, a.kind, a.p, a.mat, ImplIdReq(a), ImplPrefix(a), ImplKid(a)>>,
@@ -207,6 +208,7 @@ ExpectedLaw ==
       [] f = "equal_across_types" -> {"doc: keys of different Go types are Equal"}
       [] f = "equal_one_directional" -> {"doc: key.Equal is not symmetric"}
       [] f = "unstable_accessor" -> {"doc: an accessor returns another value on its second call"}
+      [] f = "accessor_returns_internal_slice" -> {"doc: an accessor returns another value after a byte slice it returned earlier was overwritten"}
       [] f = "accepts_nonzero_id" -> {"doc: the constructor accepts a non-zero id for parameters without id requirement",
                                       "doc: a key without id requirement reports a non-zero id (the constructor accepts one; IDRequirement: if not required, the returned ID is zero)"}
       [] f = "parameters_not_kept" -> {"doc: key.Parameters() is not Equal to the parameters the key was built with"}
